@@ -110,7 +110,8 @@ fn fraction_of_products_of_factorials(numerator: (u64, u64), denominator: (u64, 
     let max_all = u64::max(max_top, max_bottom);
 
     let mut result = 1.0;
-    for i in (min_all + 1)..=max_all {
+    // `min_all + 1 ..= max_all` without overflowing when min_all == u64::MAX
+    for i in (min_all..max_all).map(|i| i + 1) {
         if i <= min_top {
             result *= i as f64;
         }
